@@ -52,6 +52,7 @@ class DaemonsMemory:
     # For background and timed threads/tasks (invoked with the kwargs of the last-seen body).
     live_fresh_body: bodies.Body | None = None
     idle_reset_time: float = dataclasses.field(default_factory=_loop_time)
+    last_seen_essence: bodies.BodyEssence | None = None  # to notice the reverted changes too
     forever_stopped: set[ids.HandlerId] = dataclasses.field(default_factory=set)
     running_daemons: dict[ids.HandlerId, Daemon] = dataclasses.field(default_factory=dict)
 
